@@ -6,7 +6,8 @@ import os, subprocess, sys, fcntl, time, re, json, hashlib
 ROOT = os.path.dirname(os.path.dirname(os.path.abspath(__file__)))
 WORK = os.path.join(ROOT, "work")
 COQ = os.path.join(ROOT, "coq")
-ENV = dict(os.environ, CARGO_NET_OFFLINE="true", RUSTFLAGS="--cfg regexml_verif")
+ENV = dict(os.environ, CARGO_NET_OFFLINE="true")
+ENV.pop("RUSTFLAGS", None)   # harness/.cargo/config.toml sets --cfg regexml_verif
 
 
 def sh(cmd, cwd=None, timeout=3600, env=None):
